@@ -13,6 +13,11 @@ package cose
 
 //@ func cose.Encrypt0.Encrypt
 //@   params e0 alg key payload aad
+//@   local c = extract0:call:cose.EncryptAlgorithm.NewCrypter#1
+//@   local ciphertext = addr:Alloc#3 | extract0:call:cose.Crypter.Encrypt#1
+//@   local err = extract1:call:cbor.Marshal#1 | extract1:call:cose.Encrypt0.additionalData#1 | extract1:call:cose.EncryptAlgorithm.NewCrypter#1 | extract2:call:cose.Crypter.Encrypt#1
+//@   local newUnprotected = extract1:call:cose.Crypter.Encrypt#1
+//@   local plaintext = extract0:call:cbor.Marshal#1
 //@   props C10(sweep)
 //@   sweep bounds,panic,make,nilmem,div
 
